@@ -157,19 +157,25 @@ pub fn cse_detect(fe: &BodyForm) -> Result<Vec<CSEDetectionWithoutConditions>, C
         fe,
     )?;
 
-    // Group them by hash since we've renamed variables.
+    // Group them by hash since we've renamed variables.  The hashed
+    // expressions contain generated names, so hash order changes with the
+    // name counter; report the groups in order of first appearance in the body
+    // so the output doesn't depend on what was compiled before.
     let mut by_hash: BTreeMap<Vec<u8>, Vec<PathDetectVisitorResult<Vec<u8>>>> = BTreeMap::new();
+    let mut first_seen: Vec<Vec<u8>> = Vec::new();
     for expr in found_exprs.iter() {
         if let Some(lst) = by_hash.get_mut(&expr.context) {
             lst.push(expr.clone());
         } else {
+            first_seen.push(expr.context.clone());
             by_hash.insert(expr.context.clone(), vec![expr.clone()]);
         }
     }
 
-    let detections: Vec<CSEDetectionWithoutConditions> = by_hash
+    let detections: Vec<CSEDetectionWithoutConditions> = first_seen
         .into_iter()
-        .filter_map(|(k, v)| {
+        .filter_map(|k| {
+            let v = by_hash.remove(&k)?;
             if v.len() < 2 {
                 return None;
             }
